@@ -40,7 +40,9 @@ def diff_pass(c, L):
     d, y = ev
     prev0 = c.st.ghost.get('prev_at_head')
     prev1 = c.st.env.get('prev')
-    if prev0 is None or prev1 is None or prev0.k != 'real' or y[1].k != 'real' or d[2].k != 'real':
+    if prev0 is None or prev1 is None:
+        raise KeyError('prev')                            # the local this clause is about has another name: undecided, not wrong
+    if prev0.k != 'real' or y[1].k != 'real' or d[2].k != 'real':
         return z3.BoolVal(False)
     return z3.And(y[1].z == d[2].z - prev0.z, z3.BoolVal(prev1 is d[2]))         # difference to the previous value; it moves on
 
@@ -117,6 +119,17 @@ def latch_pass(c, L):
     if len(src) != len(draws) - 1 or len(src) > 1:
         return z3.BoolVal(False)
     last1 = c.st.env.get('last_inval')
+    last0 = c.st.ghost.get('last_at_head')
+    if last1 is None or last0 is None:
+        raise KeyError('last_inval')                      # the local this clause is about has another name: undecided, not wrong
+    # is there a remembered value at the head of this pass?  (the havocked variable: a ghost boolean; the very first
+    # pass from the entry state: plainly not)
+    if last0.k == 'obj' and last0.oid == 'UNDEFINED':
+        have = z3.BoolVal(False)
+    elif last0.k == 'obj' and last0.oid == 'last-value':
+        have = HAVE_LAST
+    else:
+        have = z3.BoolVal(True)
     if src and not copies:
         # a new value from the source, yielded as it is and remembered
         return z3.And(trig, z3.BoolVal(ys[0][1] is src[0][2] and last1 is src[0][2]))
@@ -124,9 +137,8 @@ def latch_pass(c, L):
         return z3.BoolVal(False)
     if src:
         # no value yet: one is drawn first, a copy of it goes out
-        return z3.And(z3.Not(trig), z3.Not(HAVE_LAST), z3.BoolVal(copies[0][1] is src[0][2] and last1 is src[0][2]))
-    last0 = c.st.ghost.get('last_at_head')
-    return z3.And(z3.Not(trig), HAVE_LAST, z3.BoolVal(copies[0][1] is last0 and last1 is last0))   # held: the source is not advanced
+        return z3.And(z3.Not(trig), z3.Not(have), z3.BoolVal(copies[0][1] is src[0][2] and last1 is src[0][2]))
+    return z3.And(z3.Not(trig), have, z3.BoolVal(copies[0][1] is last0 and last1 is last0))   # held: the source is not advanced
 
 
 contract(F, 'Platch.__embed__', props=('C13',), params={'self': 'self', 'inval': 'obj'},
